@@ -77,7 +77,7 @@ def run(ctx: Ctx) -> None:
         for scn in scenarios(fam):
             if scn.hist_order != "random":
                 jobs.append({"scn": cc.scn_dict(scn), "mode": "dfs", "preemptions": 1 if ctx.quick else 2,
-                             "max_exec": (60 if fam == "mem" else 20) if ctx.quick else 3000})
+                             "max_exec": (60 if fam == "mem" else 20) if ctx.quick else 400})
             jobs.append({"scn": cc.scn_dict(scn), "mode": "seeds",
                          "seeds": [ctx.seed + k for k in range((6 if fam == "mem" else 3) if ctx.quick else 60)]})
     results = cc.run_jobs(jobs)
